@@ -22,6 +22,7 @@ Exactly-once delivery to the received hook of PDUs that were read, and the sessi
 are checked by predicates on the traces.
 -/
 import SmppVerif.Lemmas.Discipline
+import SmppVerif.Lemmas.ReceiverDiscipline
 import SmppVerif.Gen.Site
 
 namespace SmppVerif.Props.C15
@@ -61,6 +62,26 @@ example : run { bindCmd := 9 } [.connect 0, .announce bindTrx, .write 0 (bindTrx
 example : run { bindCmd := 9 } [.connect 0, .announce bindTrx, .write 0 bindTrx, .announce (enq 2), .write 0 (enq 2)] = none := by
   decide +kernel
 
+open SmppVerif.Lemmas.ReceiverDiscipline in
+/-- THE RECEIVER OBEYS THE DISCIPLINE, FOR EVERY INPUT: on a bound connection, whatever whole PDUs (octet strings of at
+    least 16 octets) the peer delivers, the events of the Receiver model (Model/Receiver.lean, the model of C05: PDU read,
+    handed to the received hook, hook returned, response announced to the sending hook and written in one call - or
+    nothing written for a response / an unknown command - until an exception leaves the loop) are accepted by the
+    monitor: every response is a whole PDU, echoes the sequence number of a request read on this connection, answers that
+    request's command or is a generic_nack, each request is answered at most once, and a deliver_sm only after its hook
+    returned.  `body` is whatever body the response class writes (any length that fits the length field). -/
+theorem receiver_reactions_accepted (c : Nat) (dflt : Pdu.Enc) (body : Bytes → Bytes) (ps : List Bytes) (m : Mon)
+    (hr : Ready c m)
+    (hps : ∀ p ∈ ps, 16 ≤ p.length ∧ (∀ x ∈ p, x < 256) ∧ 16 + (body p).length < 4294967296) :
+    ∃ m', run m (receiverEvents c dflt body ps) = some m' :=
+  receiver_accepted c dflt body ps m hr hps
+
+open SmppVerif.Lemmas.ReceiverDiscipline in
+/-- non-vacuity: a bound session is `Ready`; an enquire_link from the peer is answered with enquire_link_resp echoing 5 -/
+example : Ready 0 { bindCmd := 9, conns := [{ id := 0, writes := 1, bound := true }] } :=
+  ⟨⟨_, rfl, rfl, rfl, by decide, by intro q hq; cases hq⟩⟩
+example : Receiver.receive (enq 5) Pdu.encGsm = .respond 0x80000015 0 5 := by decide +kernel
+
 /-- TIE TO THE SOURCE (regenerated on every run, Gen/Site.lean): the primitive steps of `ESME._send_data` in source order are
     the ones the monitor and the interleaving model assume — wait for the bound state, build the PDU, announce it to the
     sending hook, write it, drain (the steps this property does not depend on are projected away). -/
@@ -76,3 +97,4 @@ end SmppVerif.Props.C15
 #print axioms SmppVerif.Props.C15.framing
 #print axioms SmppVerif.Props.C15.all_interleavings_accepted
 #print axioms SmppVerif.Props.C15.send_data_step_order
+#print axioms SmppVerif.Props.C15.receiver_reactions_accepted
